@@ -177,7 +177,8 @@ func (p *pathCtx) assert(fr *frame, c value, id string) {
 		v.Trace = p.model()
 		p.res.Violations = append(p.res.Violations, v)
 		p.res.Asserts = append(p.res.Asserts, AssertResult{id, "sat", pos})
-		panic(pathAbort{"violation", id})
+		// keep executing: later assertions on this path are still evaluated
+		return
 	case sym:
 		p.solver.Push()
 		p.solver.Assert(smt.Not(b.t))
